@@ -131,6 +131,40 @@ def run(ctx):
     cmp_ = find_expr("allclose($$t, $$b, atol=atol, rtol=rtol)", cv.node)
     ctx.ob("R-SIB", "C10.4", cv, "vectorisation probe compares the batch call against point-by-point calls of the same function", len(tg) == 1 and len(bt) == 1 and len(cmp_) == 1 and src(cmp_[0][1]["t"]) == src(tg[0][1]["t"]) and src(cmp_[0][1]["b"]) == src(bt[0][1]["b"]), "")
     ctx.floor("C10.4", 12)
+    # ---- C10.5 the probe that licenses the batch path demands agreement to round-off --------------------------------
+    # batch_evaluate_* takes the batch path only when check_vectorised_function said the function is vectorised; that
+    # verdict is "batch == pointwise" only as tightly as the probe's tolerances: a function whose per-point value
+    # depends on its batch companions at the 1e-8 level would pass a sqrt(eps) probe and then return values that
+    # change with the chunk size.  Obligation: the tolerances allclose receives are numeric literals <= 1e-12 or a
+    # small multiple of the dtype's eps, whether they come from the defaults or from a call site.
+    def _tight(e_):
+        if isinstance(e_, ast.Constant) and isinstance(e_.value, (int, float)) and not isinstance(e_.value, bool):
+            return 0 <= e_.value <= 1e-12
+        if isinstance(e_, ast.BinOp) and isinstance(e_.op, ast.Mult):
+            for a_, b_ in ((e_.left, e_.right), (e_.right, e_.left)):
+                if isinstance(a_, ast.Constant) and isinstance(a_.value, (int, float)) and a_.value <= 1e3 and src(b_).replace("numpy", "np").endswith(".eps") and "finfo" in src(b_):
+                    return True
+        if isinstance(e_, ast.Attribute) and e_.attr == "eps" and "finfo" in src(e_):
+            return True
+        return False
+
+    args_ = cv.node.args
+    defaults_ = dict(zip([a_.arg for a_ in args_.args][len(args_.args) - len(args_.defaults):], args_.defaults))
+    defaults_.update({a_.arg: d_ for a_, d_ in zip(args_.kwonlyargs, args_.kw_defaults) if d_ is not None})
+    rebinds_ = {s_.targets[0].id for s_ in walk_no_nested(cv.node) if isinstance(s_, ast.Assign) and len(s_.targets) == 1 and isinstance(s_.targets[0], ast.Name)} | {s_.target.id for s_ in walk_no_nested(cv.node) if isinstance(s_, ast.AugAssign) and isinstance(s_.target, ast.Name)}
+    for tol_ in ("atol", "rtol"):
+        d_ = defaults_.get(tol_)
+        used_ = bool(cmp_) and any(k_.arg == tol_ and src(k_.value) == tol_ for c_ in [x_ for x_ in walk_no_nested(cv.node) if isinstance(x_, ast.Call) and (call_name(x_) or "").endswith("allclose")] for k_ in c_.keywords)
+        ctx.ob("R-SIB", "C10.5", cv, f"the vectorisation probe compares with a round-off level `{tol_}` (a literal <= 1e-12 or a small multiple of the dtype's eps), passed unchanged to allclose", d_ is not None and _tight(d_) and tol_ not in rebinds_ and used_, f"default `{src(d_) if d_ is not None else None}`" + (f"; `{tol_}` is re-bound inside the function" if tol_ in rebinds_ else ""))
+    n_sites_ = 0
+    for f_ in prog.all_functions:
+        for c_ in walk_no_nested(f_.node):
+            if isinstance(c_, ast.Call) and (call_name(c_) or "").split(".")[-1] == "check_vectorised_function":
+                n_sites_ += 1
+                over_ = [k_ for k_ in c_.keywords if k_.arg in ("atol", "rtol")] + list(c_.args[3:])
+                ctx.ob("R-SIB", "C10.5", f_, "callers of the probe do not loosen its tolerances", all(_tight(k_.value if isinstance(k_, ast.keyword) else k_) for k_ in over_), f"`{src(c_)[:80]}`", node=c_)
+    ctx.require(n_sites_ >= 3, f"only {n_sites_} calls of check_vectorised_function found")
+    ctx.floor("C10.5", 5)
     ctx.assumptions += ["pool.map / builtin map / list comprehensions return results in input order; np.array_split and np.concatenate preserve order", "value equality between vectorised and pointwise evaluation of a user function is the user's contract (probed at run time)"]
 
 
